@@ -241,14 +241,15 @@ def _lookup(c):
     in_table = V.dict_has(funcs, ks_of(m))
     has_inst = z3.Not(V.is_none(inst))
     inst_disp = z3.And(z3.Not(in_table), has_inst, has_attr(inst, sv("_dispatch")))
-    res = z3.And(z3.Not(in_table), has_inst, z3.Not(has_attr(inst, sv("_dispatch"))), resolvable(inst, Val.s(m)))
-    found = z3.Or(in_table, res)
+    res = z3.And(z3.Not(in_table), has_inst, z3.Not(has_attr(inst, sv("_dispatch"))), V.is_str(m), resolvable(inst, Val.s(m)))
+    found = z3.Or(z3.And(in_table, z3.Not(V.is_none(V.dict_get(funcs, ks_of(m))))), res)
     f = z3.If(in_table, V.dict_get(funcs, ks_of(m)), resolved(inst, Val.s(m)))
     return found, f, inst_disp
 
 
 def ks_of(v):
-    return V.KS(Val.s(v))
+    """the dict key the code looks a method name up with (str or bytes)"""
+    return ops.to_key(v)
 
 
 def _mentions(c, msg):
@@ -258,12 +259,11 @@ def _mentions(c, msg):
 
 def _dispatch_domain(c):
     cfg = c.a.config
-    return z3.And(disp_inv(c, c.a.self), V.is_str(c.a.method), z3.Length(Val.s(c.a.method)) > 0,
-                  z3.Or(V.is_list(c.a.params), V.is_dict(c.a.params)),
+    return z3.And(disp_inv(c, c.a.self), strlike(c.a.method), V.truthy(c.a.method),
+                  z3.Or(V.is_list(c.a.params), V.is_dict(c.a.params), V.is_tuple(c.a.params)),
                   z3.Or(V.is_none(cfg), z3.And(V.is_obj(cfg), C.subclass(C.cls_of(Val.ref(cfg)), _cfgmod.Config),
                                                valid_config(c, cfg), Val.ref(cfg) >= 0)),
-                  # registered callables and instances are environment objects
-                  _funcs_are_callables(c))
+                  z3.BoolVal(True))
 
 
 def _funcs_are_callables(c):
@@ -330,10 +330,10 @@ def _wf_error_def(e):
 def _wf_response_def(r):
     v2 = has(r, "jsonrpc")
     two = z3.And(get(r, "jsonrpc") == V.S("2.0"), has(r, "id"), has(r, "result") != has(r, "error"),
-                 Val.dhas(r) == keyset_if([("jsonrpc", z3.BoolVal(True)), ("id", z3.BoolVal(True)),
-                                           ("result", has(r, "result")), ("error", has(r, "error"))]),
+                 exact_keys(r, [("jsonrpc", z3.BoolVal(True)), ("id", z3.BoolVal(True)),
+                                ("result", has(r, "result")), ("error", has(r, "error"))]),
                  implies(has(r, "error"), wf_error(get(r, "error"))))
-    one = z3.And(Val.dhas(r) == keyset("result", "error", "id"),
+    one = z3.And(exact_keys(r, [("result", True), ("error", True), ("id", True)]),
                  z3.Or(z3.And(V.is_none(get(r, "error"))),
                        z3.And(V.is_none(get(r, "result")), wf_error(get(r, "error")))))
     return z3.And(V.is_dict(r), z3.If(v2, two, one))
@@ -357,14 +357,10 @@ def _single_domain(c):
     m = get(e, "method")
     funcs = c.old(c.a.self, "funcs")
     inst = c.old(c.a.self, "instance")
-    return z3.And(disp_inv(c, c.a.self), wellformed(e), has(e, "params"), V.is_str(m),
-                  z3.Or(V.is_list(get(e, "params")), V.is_dict(get(e, "params"))),
+    return z3.And(disp_inv(c, c.a.self), wellformed(e), has(e, "params"), strlike(m),
+                  z3.Or(V.is_list(get(e, "params")), V.is_dict(get(e, "params")), V.is_tuple(get(e, "params"))),
                   z3.Or(V.is_none(dm), V.is_fun(dm)),
-                  implies(V.dict_has(funcs, ks_of(m)), V.is_fun(V.dict_get(funcs, ks_of(m)))),
-                  z3.Or(V.is_none(inst), z3.And(V.is_obj(inst), Val.ref(inst) >= 0, Val.ref(inst) < ALLOC0,
-                                                z3.Not(C.subclass(C.cls_of(Val.ref(inst)), S.SimpleJSONRPCDispatcher)))),
-                  implies(has_attr(inst, sv("_dispatch")), V.is_fun(attr_of(inst, sv("_dispatch")))),
-                  implies(resolvable(inst, Val.s(m)), V.is_fun(resolved(inst, Val.s(m)))))
+                  z3.BoolVal(True))
 
 
 def _lookup_e(c):
@@ -374,8 +370,8 @@ def _lookup_e(c):
     in_table = V.dict_has(funcs, ks_of(m))
     has_inst = z3.Not(V.is_none(inst))
     inst_disp = z3.And(z3.Not(in_table), has_inst, has_attr(inst, sv("_dispatch")))
-    res = z3.And(z3.Not(in_table), has_inst, z3.Not(has_attr(inst, sv("_dispatch"))), resolvable(inst, Val.s(m)))
-    return z3.Or(in_table, res), inst_disp
+    res = z3.And(z3.Not(in_table), has_inst, z3.Not(has_attr(inst, sv("_dispatch"))), V.is_str(m), resolvable(inst, Val.s(m)))
+    return z3.Or(z3.And(in_table, z3.Not(V.is_none(V.dict_get(funcs, ks_of(m))))), res), inst_disp
 
 
 def _answered(c):
@@ -459,3 +455,174 @@ def _translated_by(c, v):
     env = tup(c.old(cfg, "serialize_handlers"), c.old(cfg, "serialize_method"), c.old(cfg, "ignore_attribute"),
               V.empty_list())
     return z3.If(V.truthy(c.old(cfg, "use_jsonclass")), jcd(env, v), v)
+
+
+# --- _unmarshaled_dispatch: single requests and batches ---------------------------------------------------------------------
+def _unanswered_def(e):
+    """an entry that produces no response object: a well-formed notification (C04)"""
+    return z3.And(wellformed(e), is_notification(e))
+
+
+unanswered = V._define("unanswered", [Val, z3.BoolSort()], _unanswered_def)
+
+# answered(batch, k): number of response objects owed to the first k entries (C03: one per non-notification entry,
+# in order, plus one error per invalid entry)
+answered = z3.RecFunction("answered", Val, z3.IntSort(), z3.IntSort())
+_b, _k = z3.Const("answered!b", Val), z3.Int("answered!k")
+z3.RecAddDefinition(answered, [_b, _k],
+                    z3.If(_k <= 0, z3.IntVal(0),
+                          answered(_b, _k - 1) + z3.If(unanswered(z3.Select(Val.lat(_b), _k - 1)), 0, 1)))
+
+
+def _batch_inv(L):
+    resp = L.v("responses")
+    req = L.seq
+    i = L.i
+    j = z3.Int("j!inv")
+    k = z3.Int("k!inv")
+    d = L.v0("self")
+    cfg = L.field0(d, "json_config")
+    return z3.And(
+        V.is_list(resp), Val.llen(resp) == answered(req, i), Val.llen(resp) >= 0,
+        z3.ForAll([j], z3.Implies(z3.And(j >= 0, j < Val.llen(resp)), wf_response(z3.Select(Val.lat(resp), j))),
+                  patterns=[z3.Select(Val.lat(resp), j)]),
+        z3.ForAll([k], z3.Implies(z3.And(k >= 0, k < i, z3.Not(unanswered(z3.Select(Val.lat(req), k)))),
+                                  z3.And(answered(req, k) >= 0, answered(req, k) < Val.llen(resp),
+                                         get(z3.Select(Val.lat(resp), answered(req, k)), "id") ==
+                                         usable_id(z3.Select(Val.lat(req), k)))),
+                  patterns=[answered(req, k)]),
+        # C13: the server's configuration object is never written while serving
+        *[L.field(cfg, f) == L.field0(cfg, f) for f in _CFG_FIELDS])
+
+
+def _um_domain(c):
+    return z3.And(disp_inv(c, c.a.self), z3.Or(V.is_none(c.a.dispatch_method), V.is_fun(c.a.dispatch_method)),
+                  implies(V.is_list(c.a.request), Val.llen(c.a.request) >= 0))
+
+
+def _um_batch_post(c):
+    req, r = c.a.request, c.ret
+    n = Val.llen(req)
+    j = z3.Int("j!post")
+    k = z3.Int("k!post")
+    return z3.And(
+        implies(c.returns, z3.And(
+            V.is_list(r), Val.llen(r) >= 1, Val.llen(r) == answered(req, n),
+            z3.ForAll([j], z3.Implies(z3.And(j >= 0, j < Val.llen(r)), wf_response(z3.Select(Val.lat(r), j))),
+                      patterns=[z3.Select(Val.lat(r), j)]),
+            z3.ForAll([k], z3.Implies(z3.And(k >= 0, k < n, z3.Not(unanswered(z3.Select(Val.lat(req), k)))),
+                                      get(z3.Select(Val.lat(r), answered(req, k)), "id") == usable_id(z3.Select(Val.lat(req), k))),
+                      patterns=[answered(req, k)]))),
+        implies(c.raised, z3.And(c.raises_exactly(S.NoMulticallResult), answered(req, n) == 0)))
+
+
+_UM = "jsonrpclib.SimpleJSONRPCServer.SimpleJSONRPCDispatcher._unmarshaled_dispatch"
+
+Contract(
+    _UM,
+    kinds={"request": "val", "dispatch_method": "val"},
+    requires=[("domain", _um_domain)],
+    ensures=[
+        ("empty_request_is_invalid", lambda c: implies(z3.Not(V.truthy(c.a.request)), z3.And(
+            c.returns, wf_response(c.ret), is_error_response(c.ret), err_code(c.ret) == V.I(-32600),
+            V.is_none(get(c.ret, "id")), _not_called(c))), ("C02", "C05")),
+        ("single_entry", lambda c: implies(z3.And(V.truthy(c.a.request), z3.Not(V.is_list(c.a.request))), z3.And(
+            c.returns,
+            z3.If(unanswered(c.a.request), V.is_none(c.ret),
+                  z3.And(wf_response(c.ret), get(c.ret, "id") == usable_id(c.a.request),
+                         has(c.ret, "jsonrpc") == z3.Not(form_is_v1(c.a.request, _sv(c))))),
+            implies(z3.Not(wellformed(c.a.request)),
+                    z3.And(is_error_response(c.ret), err_code(c.ret) == V.I(-32600), _not_called(c))))),
+         ("C02", "C03", "C04", "C05", "C13")),
+        ("batch", lambda c: implies(z3.And(V.truthy(c.a.request), V.is_list(c.a.request)), _um_batch_post(c)),
+         ("C02", "C03", "C04")),
+        ("raises_only_for_silent_batch", lambda c: implies(c.raised, z3.And(V.is_list(c.a.request), V.truthy(c.a.request),
+                                                                            c.raises_exactly(S.NoMulticallResult))),
+         ("C02", "C03")),
+        ("configs_untouched", lambda c: config_unchanged(c, c.old(c.a.self, "json_config")), ("C13",)),
+    ],
+    loops={0: LoopSpec(_batch_inv, "batch")},
+    modifies=[Ghost("call_log"), Ghost("env_calls"), Ghost("env_kind"), Ghost("env_val"), Ghost("bind_err"),
+              Ghost("pool_accepted"), Ghost("uuid_ctr"), Ghost("xlate_log")] +
+             [Fresh(f) for f in ("faultCode", "faultString", "rpcid", "config", "data", "id", "version", "args") + _CFG_FIELDS] +
+             [Fresh(f) for f in ("_logger", "_done_event", "_FutureResult__callback", "_FutureResult__extra")],
+    props=("C02", "C03", "C04", "C05", "C13"),
+)
+
+
+# --- _marshaled_dispatch: text in, text out --------------------------------------------------------------------------------
+def _parsed(c):
+    """the request value the dispatcher works on: JSON decoding followed by the class translator when enabled"""
+    cfg = c.old(c.a.self, "json_config")
+    jl = jloads_of(Val.s(c.a.data))
+    return z3.If(V.truthy(c.old(cfg, "use_jsonclass")),
+                 z3.If(V.is_none(jl), V.VNone, jcl(eff_classes(c.old(cfg, "classes")), jl)), jl)
+
+
+def _md_reply(c):
+    """what a returned, non-empty text stands for"""
+    req = z3.If(c.a.data == V.S(""), V.VNone, _parsed(c))
+    D = c.gnew("last_dumped")
+    n = Val.llen(req)
+    j = z3.Int("j!md")
+    k = z3.Int("k!md")
+    single = z3.And(wf_response(D),
+                    implies(z3.And(V.truthy(req), wellformed(req)), get(D, "id") == get(req, "id")),
+                    implies(z3.Not(z3.And(V.truthy(req), wellformed(req))),
+                            z3.And(is_error_response(D), err_code(D) == V.I(-32600), get(D, "id") == usable_id(req))),
+                    implies(V.truthy(req), has(D, "jsonrpc") == z3.Not(form_is_v1(req, _sv(c)))))
+    batch = z3.And(V.is_list(D), Val.llen(D) >= 1, Val.llen(D) == answered(req, n),
+                   z3.ForAll([j], z3.Implies(z3.And(j >= 0, j < Val.llen(D)), wf_response(z3.Select(Val.lat(D), j)))),
+                   z3.ForAll([k], z3.Implies(z3.And(k >= 0, k < n, z3.Not(unanswered(z3.Select(Val.lat(req), k)))),
+                                             get(z3.Select(Val.lat(D), answered(req, k)), "id") ==
+                                             usable_id(z3.Select(Val.lat(req), k)))))
+    return z3.If(z3.And(V.truthy(req), V.is_list(req)), batch, single)
+
+
+def _md_loaded(c):
+    """the text was decoded (and translated) successfully"""
+    return z3.Or(c.a.data == V.S(""), z3.And(json_text(Val.s(c.a.data)), c.gnew("md_loaded")))
+
+
+T.declare_ghost("md_loaded", z3.BoolSort())
+
+_MD = "jsonrpclib.SimpleJSONRPCServer.SimpleJSONRPCDispatcher._marshaled_dispatch"
+
+Contract(
+    _MD,
+    kinds={"data": "str", "dispatch_method": "val"},
+    requires=[("domain", lambda c: z3.And(disp_inv(c, c.a.self),
+                                          z3.Or(V.is_none(c.a.dispatch_method), V.is_fun(c.a.dispatch_method))))],
+    ensures=[
+        ("malformed_json_is_parse_error", lambda c: implies(
+            z3.And(c.a.data != V.S(""), z3.Not(json_text(Val.s(c.a.data)))),
+            z3.And(implies(c.returns, z3.And(
+                c.ret == V.VStr(V.jdumps_of(c.gnew("last_dumped"))),
+                (lambda D: z3.And(wf_response(D), is_error_response(D), err_code(D) == V.I(-32700), V.is_none(get(D, "id")),
+                                  has(D, "jsonrpc") == (_sv(c) >= 2)))(c.gnew("last_dumped")))),
+                   _not_called(c), c.gnew("pool_accepted") == c.gold("pool_accepted"))), ("C02", "C05", "C08")),
+        ("reply_is_text_of_wellformed_objects", lambda c: implies(
+            z3.And(c.returns, z3.Or(c.a.data == V.S(""), json_text(Val.s(c.a.data)))),
+            z3.And(V.is_str(c.ret),
+                   z3.Or(c.ret == V.S(""),
+                         z3.And(c.ret == V.VStr(V.jdumps_of(c.gnew("last_dumped"))),
+                                z3.Or(_md_reply(c),
+                                      # the class translator rejected the payload: a single -32700
+                                      (lambda D: z3.And(V.truthy(c.old(c.old(c.a.self, "json_config"), "use_jsonclass")),
+                                                        wf_response(D), is_error_response(D),
+                                                        err_code(D) == V.I(-32700), V.is_none(get(D, "id")),
+                                                        _not_called(c)))(c.gnew("last_dumped"))))))),
+         ("C02", "C03", "C05", "C08", "C13")),
+        ("raises_only_if_backend_rejects_reply", lambda c: implies(c.raised, c.raises(TypeError)), ("C02",)),
+        ("inert_translator_when_disabled", lambda c: implies(
+            z3.Not(V.truthy(c.old(c.old(c.a.self, "json_config"), "use_jsonclass"))),
+            z3.And(c.gnew("imports") == c.gold("imports"), c.gnew("constructs") == c.gold("constructs"))), ("C08",)),
+        ("configs_untouched", lambda c: config_unchanged(c, c.old(c.a.self, "json_config")), ("C13",)),
+    ],
+    modifies=[Ghost("call_log"), Ghost("env_calls"), Ghost("env_kind"), Ghost("env_val"), Ghost("bind_err"),
+              Ghost("pool_accepted"), Ghost("uuid_ctr"), Ghost("xlate_log"), Ghost("last_dumped"), Ghost("imports"),
+              Ghost("constructs")] +
+             [Fresh(f) for f in ("faultCode", "faultString", "rpcid", "config", "data", "id", "version", "args") + _CFG_FIELDS] +
+             [Fresh(f) for f in ("_logger", "_done_event", "_FutureResult__callback", "_FutureResult__extra")],
+    props=("C02", "C03", "C05", "C08", "C13"),
+)
